@@ -319,6 +319,7 @@ type sim struct {
 
 	// concurrent bursts: history of accepted configurations, the one being
 	// applied by the (serialized) update task and the number of completed updates
+	solo     bool // probes run as the only released task
 	cfgHist  []cfgRec
 	curUpd   int
 	updDone  int
@@ -651,7 +652,17 @@ func (s *sim) probe(name string, stream bool) (*fakePool, bool) {
 			_ = s.gme.Invoke(ctx, "/svc/M", nil, nil)
 		}
 	})
-	s.k.Quiesce()
+	if s.solo {
+		// only the RPC runs: goroutines the library started stay where they are
+		if !s.k.RunOnly(c.t) && c.panicked == "" {
+			s.res.Count("probe:solo_rpc_could_not_finish_alone", 1)
+			s.k.Quiesce()
+			s.kernelFailure()
+			return nil, false
+		}
+	} else {
+		s.k.Quiesce()
+	}
 	s.kernelFailure()
 	if s.stop {
 		return nil, false
@@ -873,7 +884,12 @@ func (s *sim) exec(o Op) {
 		s.dialN, s.dialFail = 0, sp.DialFail
 		var err error
 		c := s.call("Update", 1, func() { err = s.gme.UpdateMultiEndpoints(s.buildOpts(sp)) })
-		s.k.Quiesce()
+		// Only the update runs until it returns: what it leaves to goroutines it
+		// started has not happened yet when the "at return" clause is judged.
+		alone := s.k.RunOnly(c.t)
+		if !alone {
+			s.k.Quiesce()
+		}
 		s.kernelFailure()
 		if s.stop || s.panicked(c, "UpdateMultiEndpoints") {
 			return
@@ -912,6 +928,34 @@ func (s *sim) exec(o Op) {
 			return
 		}
 		s.accept(sp)
+		if alone {
+			// "every MultiEndpoint already reflects the connectivity of the kept
+			// pools when the call returns": real RPCs, nothing else released
+			s.solo = true
+			names := []string{"", "unknown"}
+			for n := range s.mes {
+				names = append(names, n)
+			}
+			sort.Strings(names)
+			for _, n := range names {
+				if s.stop {
+					break
+				}
+				if p, ok := s.probe(n, false); ok {
+					s.judge(n, p, "when the update returned", true)
+					s.res.Count("probe:routing_judged_at_update_return", 1)
+				}
+			}
+			s.solo = false
+			if s.stop {
+				return
+			}
+		}
+		s.k.Quiesce()
+		s.kernelFailure()
+		if s.stop {
+			return
+		}
 		for _, d := range s.dialLog[dialsBefore:] {
 			if openBefore[d] {
 				s.vio("C15", "kept-pool-redialled", "", fmt.Sprintf("endpoint %s already had an open pool but was dialled again", d))
